@@ -23,14 +23,18 @@ import (
 
 // VerifAdapterCfg describes one case.
 type VerifAdapterCfg struct {
-	Adapter  string // BasicAdapterName | TusAdapterName
-	Upload   bool
-	Dir      string // scratch "repository": <Dir>/.git/lfs/{incomplete,objects}
-	Oid      string
-	Size     int64
-	Path     string            // download: final location of the object; upload: source file
-	Hrefs    map[string]string // action name -> href ("download" | "upload" | "verify")
-	Attempts int               // upper bound on consecutive adapter attempts for the object
+	Adapter string // BasicAdapterName | TusAdapterName
+	Upload  bool
+	Dir     string // scratch "repository": <Dir>/.git/lfs/{incomplete,objects}
+	Oid     string
+	Size    int64
+	Path    string            // download: final location of the object; upload: source file
+	Hrefs   map[string]string // action name -> href ("download" | "upload" | "verify")
+	// Expiry: action name -> validity class of that action as the batch response advertised it:
+	// "" none advertised; "valid" (expires_at one hour ahead); "expired-at" (expires_at one hour ago);
+	// "margin-in" (expires_in 2 s, counted from the response: inside the 5 s safety margin)
+	Expiry   map[string]string
+	Attempts int // upper bound on consecutive adapter attempts for the object
 	// Again is asked after a failed attempt whether the queue would hand the object to the adapter again right away.
 	Again func(attempt int, r VerifAdapterResult) bool
 	// BeforeAttempt is called before each Add (attempt numbers start at 1).
@@ -107,7 +111,16 @@ func VerifRunAdapter(cfg VerifAdapterCfg) *VerifAdapterObs {
 			// a fresh Transfer per attempt, as a new batch response gives the queue
 			acts := ActionSet{}
 			for rel, href := range cfg.Hrefs {
-				acts[rel] = &Action{Href: href}
+				act := &Action{Href: href, createdAt: time.Now()}
+				switch cfg.Expiry[rel] {
+				case "valid":
+					act.ExpiresAt = time.Now().Add(time.Hour)
+				case "expired-at":
+					act.ExpiresAt = time.Now().Add(-time.Hour)
+				case "margin-in":
+					act.ExpiresIn = 2
+				}
+				acts[rel] = act
 			}
 			t := &Transfer{Name: "file.bin", Oid: cfg.Oid, Size: cfg.Size, Path: cfg.Path, Actions: acts}
 			start := time.Now()
